@@ -236,8 +236,9 @@ class RealRun:
                         await self._body(body, env + [rec], tc)
                     except BaseException as exc:
                         exc_in = exc
-                        rec.foreign_pending_at_exit = self.foreign_pending(tc)
                         raise
+                    finally:
+                        rec.foreign_pending_at_exit = self.foreign_pending(tc)
             finally:
                 if pushed:
                     tc.scopes.pop()
@@ -376,12 +377,6 @@ class RealRun:
         if self.outcome == "cancelled":
             if not ext_req:
                 self.problem("escaped", "CancelledError left the outermost scope although no task.cancel() was requested")
-            if c != (1 if ext_req else 0):
-                self.problem(
-                    "leftover-cancelling",
-                    f"program ended with CancelledError, {int(ext_req)} external cancel(s), but task.cancelling() rose by {c}",
-                    cancelling=c,
-                )
             while task.cancelling() > entry:
                 task.uncancel()
             await self._quiet_checkpoints(3, "after the delivered external cancel")
@@ -389,12 +384,6 @@ class RealRun:
             if ext_req:
                 # requested but not delivered: legal only if there was no unshielded checkpoint left, and then it is
                 # a pending cancellation that the next checkpoint must deliver
-                if c != 1:
-                    self.problem(
-                        "leftover-cancelling",
-                        f"program ended normally with 1 undelivered external cancel but task.cancelling() rose by {c}",
-                        cancelling=c,
-                    )
                 try:
                     await asyncio.sleep(0)
                 except asyncio.CancelledError:
@@ -410,14 +399,8 @@ class RealRun:
                     task.uncancel()
                 await self._quiet_checkpoints(3, "after the pending external cancel")
             else:
-                if c != 0:
-                    self.problem(
-                        "leftover-cancelling",
-                        f"program ended normally, no external cancel, but task.cancelling() rose by {c}",
-                        cancelling=c,
-                    )
-                    while task.cancelling() > entry:
-                        task.uncancel()
+                while task.cancelling() > entry:
+                    task.uncancel()
                 await self._quiet_checkpoints(3, "no external cancel")
 
     async def _main(self) -> None:
@@ -492,8 +475,7 @@ if "D5" in _off:
 if "D6" in _off:
     EXCLUDE_D6 = False
 
-D5_KINDS = frozenset({"foreign-cancel-not-delivered", "external-cancel-lost", "leftover-cancelling", "child-not-cancelled"})
-D6_KINDS = frozenset({"leftover-cancelling"})
+D5_KINDS = frozenset({"foreign-cancel-not-delivered", "external-cancel-lost"})
 
 MAX_NODES = 14
 MAX_DEPTH = 4
@@ -532,13 +514,17 @@ def _shield_bodies(body: list) -> list[list]:
 
 
 def _real_sig_d5(real: RealRun) -> bool:
-    """a scope swallowed a CancelledError while a task.cancel() it did not issue was pending on its host task"""
-    return any(r.caught and r.foreign_pending_at_exit for r in real.scopes.values())
+    """a cancelled scope was left while a task.cancel() that no scope issued was pending on its host task"""
+    return any(r.cancel_called and r.foreign_pending_at_exit for r in real.scopes.values())
+
+
+def _sig_d6(r: _ScopeRec) -> bool:
+    """the scope issued task.cancel() calls and exited without any CancelledError passing through its __exit__"""
+    return r.cancel_called and r.own_cancel_calls > 0 and r.exc_in != "CancelledError"
 
 
 def _real_sig_d6(real: RealRun) -> bool:
-    """a scope issued task.cancel() calls and exited without any CancelledError passing through its __exit__"""
-    return any(r.cancel_called and r.own_cancel_calls > 0 and r.exc_in != "CancelledError" for r in real.scopes.values())
+    return any(_sig_d6(r) for r in real.scopes.values())
 
 
 def _check_shields(real: RealRun) -> None:
@@ -611,7 +597,7 @@ def _run(case: dict, exact_layer: bool) -> Outcome:
 
     judged_anyway = bool(case.get("no_exclude"))
     d5 = model.d5_shape or _real_sig_d5(real)
-    d6 = model.d6_shape or _real_sig_d6(real)
+    d6 = _real_sig_d6(real)
     waived: set[str] = set()
     skip_exact = False
     if d5:
@@ -623,12 +609,23 @@ def _run(case: dict, exact_layer: bool) -> Outcome:
             classes.append("excluded-D5" if model.d5_shape else "excluded-D5-signature-only")
     if d6:
         classes.append("shape-D6")
-        if EXCLUDE_D6 and not judged_anyway:
-            # the scope's own task.cancel() calls stay on the task (D6): do not judge the count, keep everything else
-            waived |= D6_KINDS
-            classes.append("excluded-D6" if model.d6_shape else "excluded-D6-signature-only")
 
     _check_shields(real)
+    # "after a scope exits the task carries no leftover cancellation request": once the outermost scope has exited,
+    # task.cancelling() is back to its entry value plus the external request (delivered or still pending)
+    if real.outcome in ("ok", "cancelled") and real.cancelling_after is not None:
+        ext_requests = int(real.ext_requested_at is not None)
+        if d6 and EXCLUDE_D6 and not judged_anyway:
+            # D6: task.cancel() calls of the scopes that exited without seeing a CancelledError stay behind; the count
+            # is not judged for this case (everything else is)
+            classes.append("excluded-D6")
+        elif real.cancelling_after != ext_requests:
+            real.problem(
+                "leftover-cancelling",
+                f"program ended ({real.outcome}) with {ext_requests} external cancel request(s), but task.cancelling() is "
+                f"{real.cancelling_after} above its value at entry",
+                cancelling=real.cancelling_after,
+            )
     problems = [p for p in real.problems if p.kind not in waived]
     if problems:
         v = problems[0]
@@ -642,6 +639,8 @@ def _run(case: dict, exact_layer: bool) -> Outcome:
             shape_d6=d6,
         )
 
+    if model.exact() and model.d5_shape != _real_sig_d5(real):
+        classes.append("shape-D5-flags-disagree")
     if model.tie:
         classes.append("tie")
     if model.racy:
